@@ -921,6 +921,21 @@ func h02CanonReq(rt *rapid.T, w *h02World, tok int) *h02Req {
 	return q
 }
 
+// h02Variant returns a decorated form of a canonical request: same target, token and method, reached through one or two
+// path decorations (the classic way around an exact-path rule).
+func h02Variant(rt *rapid.T, q *h02Req) *h02Req {
+	v := *q
+	v.decos = nil
+	v.canon = false
+	v.path = v.pfxNS + v.tgt.mount + v.tgt.rel
+	n := 1 + h02Fair(rt, "variantDecos", 2)
+	for i := 0; i < n; i++ {
+		v.decorate(rt, h02Pick(rt, "variantDeco", []string{"pct-dslash", "pct-slash", "pct-char", "pct-space-tail", "trail-toggle", "pct-dotdot-rt", "dslash", "dot", "dotdot-up", "unauth-escape", "pct-dot", "dbl-pct", "pct-qmark", "pct-dslash", "pct-char"}))
+	}
+	v.raw = "/v1/" + v.path
+	return &v
+}
+
 type h02Tally struct {
 	decorated, nonlive, allowed, denied, mustRefuse, changed, requests int
 	last                                                                map[string]bool
@@ -1345,6 +1360,11 @@ func TestVerif_C02_HTTP(t *testing.T) {
 				w.writePolicy(tk.ns, name, p)
 				rec.Class("mutation:toggle", 1)
 				repeat()
+				// the same request again through decorated spellings of its path
+				for i := 0; i < 2; i++ {
+					rec.Class("variant-after-toggle", 1)
+					w.doRequest(rt, rec, h02Variant(rt, lastReq), ty, fail)
+				}
 			case "revoke":
 				var c []int
 				for i, tk := range w.toks {
